@@ -5,9 +5,10 @@
 //!       later than the local record TTL, and has no expiry only if neither is set;
 //!   (B) a record with an expiry is never *sent* as a record that does not expire.
 //!
-//! This module implements half (B) now (`part_b_outgoing`). Half (A) needs a real `kad::Behaviour`
+//! Half (B) is `part_b_outgoing`; half (A) (`part_a_received`) runs a real `kad::Behaviour` in the network simulator (kadnet.rs).
+//! (historic note) Half (A) needs a real `kad::Behaviour`
 //! inside the network simulator with a raw peer speaking the wire protocol (owner: main session);
-//! `part_a_received` is the slot for it and currently only records that it did not run.
+//! `part_a_received` forwards to `kadnet::c42_part_a`.
 //!
 //! Half (B): real code driven = the real `Codec` encode path (`req_msg_to_proto` /
 //! `resp_msg_to_proto` → `record_to_proto`) for the two message kinds that carry a record with a
@@ -180,8 +181,9 @@ pub fn part_b_outgoing(check: &Check, args: &Args) {
 
 /// Half (A): received records under every record-TTL configuration. Needs the network simulator
 /// (`vnet`) and a raw wire peer; to be added by the owner of `vnet`. Until then the evidence says so.
-pub fn part_a_received(check: &Check, _args: &Args) {
-    check.note("part_a_received", json!("not run: needs the swarm network simulator (vnet); only half (B) of the statement is exercised by this run"));
+pub fn part_a_received(check: &Check, args: &Args) {
+    // real kad node in the network simulator, PUT_VALUE sent by a raw peer (see kadnet.rs)
+    crate::kadnet::c42_part_a(check, args);
 }
 
 pub fn run(args: &Args) -> i32 {
